@@ -17,6 +17,10 @@
 (***************************************************************************)
 EXTENDS Integers, Sequences, FiniteSets, TLC
 
+\* Values kept in TLC registers are shared by all worker threads; comparing a value with itself
+\* makes TLC normalise it (deeply) once, in the main thread, instead of lazily and concurrently.
+Norm(v) == IF v = v THEN v ELSE v
+
 Mk(t, i, s, xs, m) == [t |-> t, i |-> i, s |-> s, xs |-> xs, m |-> m]
 
 NoMap == <<>>
